@@ -19,7 +19,9 @@ IMPORTS = "From SSP Require Import Model.Kroupa."
 
 def gen(rng):
     n = rng.choice([2, 2, 3, 3, 4, 5, 6])
-    a = [rng.choice([rng.uniform(0, 3), rng.uniform(0, 3), 1.0, 2.0, 1.3, 2.35, 0.0, 0.3]) for _ in range(n)]
+    def near(x):       # close to, but not at, a special exponent: the closed form must still be the power law's
+        return x + rng.choice([-1, 1]) * 10 ** rng.uniform(-9, -3.05)
+    a = [rng.choice([rng.uniform(0, 3), rng.uniform(0, 3), 1.0, 2.0, 1.3, 2.35, 0.0, 0.3, near(1.0), near(2.0)]) for _ in range(n)]
     if rng.random() < 0.25:
         # exponents (and sometimes limits) written as plain integers, the natural spelling of the special values
         a = [rng.choice([0, 1, 2, 3, 1, 2]) for _ in range(n)]
@@ -34,6 +36,18 @@ def gen(rng):
         m *= rng.choice([1.5, 2.0, 10 ** rng.uniform(0.05, 1.5)])
         mlim.append(m)
     return dict(a=a, mlim=mlim)
+
+
+def cancels(a):
+    """some exponent within 1e-6 of (but not at) a special value: (x**p - y**p)/p loses |eps/p| digits there"""
+    return bool(any(0 < abs(x - 1) < 1e-6 or 0 < abs(x - 2) < 1e-6 for x in a))
+
+
+def classify(f):
+    if f.get("exponent_near_special") and f["clause"] in ("integral() returns the zeroth and first moments of the same density",
+                                                          "density integrates to one", "sampled masses lie inside the mass limits"):
+        return "kroupa_moment_cancellation_near_special_exponent"
+    return None
 
 
 def run(chk):
@@ -84,7 +98,7 @@ def run(chk):
         tot = quad(lambda m: float(K.eval(m)[0]) if len(K.eval(m)) else 0.0, mlim[0], mlim[-1] * (1 - 1e-15),
                    points=mlim[1:-1], limit=200, epsabs=0, epsrel=1e-10)[0]
         if not abs(tot - 1) <= 1e-7:
-            chk.fail("density integrates to one", sp, dict(integral=tot))
+            chk.fail("density integrates to one", sp, dict(integral=tot), exponent_near_special=cancels(a))
         # eval(x, N0) is N0 times the density, and neither it nor integral() changes the object (sequence of calls on one object)
         snapK = (np.array(K._C, dtype=float).copy(), float(K._norm), np.array(K._a, dtype=float).copy(), np.array(K._mlim, dtype=float).copy())
         xq = mlim[0] * (mlim[-1] / mlim[0]) ** rng.random()
@@ -124,7 +138,7 @@ def run(chk):
             q1 = quad(lambda m: m * float(K.eval(m)[0]) if len(K.eval(m)) else 0.0, u, min(v, mlim[-1] * (1 - 1e-15)), points=pts, limit=200, epsabs=0, epsrel=1e-10)[0]
             if abs(I - q0) > 1e-7 * max(abs(q0), 1e-12) or abs(I2 - q1) > 1e-7 * max(abs(q1), 1e-12):
                 chk.fail("integral() returns the zeroth and first moments of the same density", dict(sp, xmin=u, xmax=v),
-                         dict(I=float(I), I2=float(I2), quad0=q0, quad1=q1))
+                         dict(I=float(I), I2=float(I2), quad0=q0, quad1=q1), exponent_near_special=cancels(a))
         # sampler with recorded variates
         us = [0.0, 1.0, 0.5] + [rng.random() for _ in range(3)]
         gm = []
@@ -133,7 +147,8 @@ def run(chk):
             gm.append([float(x) for x in np.atleast_1d(vals)])
             for x in gm[-1]:
                 if not (mlim[i] * (1 - 1e-12) <= x <= mlim[i + 1] * (1 + 1e-12)):
-                    chk.fail("sampled masses lie inside the mass limits", dict(sp, piece=i, slope=a[i]), gm[-1])
+                    chk.fail("sampled masses lie inside the mass limits", dict(sp, piece=i, slope=a[i]), gm[-1],
+                             exponent_near_special=bool(0 < abs(a[i] - 1) < 1e-3 and all(mlim[i] * (1 - 1e-6) <= x_ <= mlim[i + 1] * (1 + 1e-6) for x_ in gm[-1])))
                     break
         al, ml = C.fll(a), C.fll(mlim)
         exprs.append("(Cs (O:=F_ops) %s %s, knorm (O:=F_ops) %s %s, map (keval (O:=F_ops) %s %s 1) %s, "
@@ -146,6 +161,11 @@ def run(chk):
     for me, v in zip(meta, vals):
         mC, mn, mev, mint, mgm = v
         sp = me["spec"]
+        if cancels(sp["a"]):
+            # moments are differences of nearly equal powers divided by a tiny number: the last bits of libm's pow vs the model's decide
+            # the 7th..9th digit (listed finding kroupa_moment_cancellation_near_special_exponent).  Counted, not compared.
+            chk.count("exponent within 1e-6 of a special value: moments are rounding noise beyond ~1e-7 (not compared with the model)")
+            continue
         if not (C.all_close(list(map(float, mC)), me["Cs"], rtol=1e-9) and C.close_float(float(mn), me["norm"], rtol=1e-9)):
             dis.append(dict(what="constants/normalisation", input=sp, impl=dict(C=me["Cs"], norm=me["norm"]),
                             model=dict(C=C.jsonable(mC), norm=C.jsonable(mn))))
